@@ -43,7 +43,8 @@ pub struct WireCase {
     pub fresh_thread: bool,
     /// the parent's own fds 0..2 in this mask are CLOSED during the spawn (a
     /// daemon-like parent); only applied to streams that are redirected to a
-    /// pipe or file
+    /// pipe or file.  Bit 3: the files handed over in the configuration were
+    /// themselves opened in that state, i.e. they sit on the freed low numbers
     #[serde(default)]
     pub closed_std: u8,
 }
@@ -180,6 +181,29 @@ fn spawn_once(case: &WireCase, helper: &std::path::Path, prefix: &std::path::Pat
     // the closed descriptors stay closed for as long as the Popen's handles
     // live: the library may hand out handles on exactly those numbers
     let mut closed_guard = Some(CloseGuard::new(mask));
+    let mut cfg = cfg;
+    if case.closed_std & 8 != 0 && mask != 0 {
+        // re-home the caller's files on the lowest free numbers (same open file description)
+        let lower = |r: Redirection| -> Redirection {
+            match r {
+                Redirection::File(f) => {
+                    let n = unsafe { libc::fcntl(f.as_raw_fd(), libc::F_DUPFD_CLOEXEC, 0) };
+                    if (0..=2).contains(&n) {
+                        Redirection::File(unsafe { File::from_raw_fd(n) })
+                    } else {
+                        if n >= 0 {
+                            unsafe { ip::raw_close(n) };
+                        }
+                        Redirection::File(f)
+                    }
+                }
+                other => other,
+            }
+        };
+        cfg.stdin = lower(std::mem::replace(&mut cfg.stdin, Redirection::None));
+        cfg.stdout = lower(std::mem::replace(&mut cfg.stdout, Redirection::None));
+        cfg.stderr = lower(std::mem::replace(&mut cfg.stderr, Redirection::None));
+    }
     let res = Popen::create(&[helper.as_os_str()], cfg);
     ip::COUNTING.store(false, SeqCst);
     obs.forks = ip::PARENT_CALLS[ip::K_FORK].load(SeqCst);
@@ -508,7 +532,7 @@ const ALL: [RK; 5] = [RK::None, RK::Pipe, RK::File, RK::RcFile, RK::Merge];
 
 fn variant_strategy() -> impl Strategy<Value = ([FK; 3], bool, bool, u8, bool, u8)> {
     let fk = prop_oneof![3 => Just(FK::Regular), 1 => Just(FK::DevNull), 1 => Just(FK::PipeEnd)];
-    ([fk.clone(), fk.clone(), fk], any::<bool>(), any::<bool>(), prop_oneof![3 => Just(1u8), 2 => 2u8..5, 1 => 5u8..21], prop_oneof![2 => Just(false), 1 => Just(true)], prop_oneof![2 => Just(0u8), 1 => 1u8..8])
+    ([fk.clone(), fk.clone(), fk], any::<bool>(), any::<bool>(), prop_oneof![3 => Just(1u8), 2 => 2u8..5, 1 => 5u8..21], prop_oneof![2 => Just(false), 1 => Just(true)], prop_oneof![2 => Just(0u8), 1 => 1u8..16])
 }
 
 fn worker(ctx: &Ctx) {
